@@ -112,6 +112,49 @@ theorem builder_accepted {V : Versions} (hV : ParamsOK V) {p : Hdr} {rest : List
     have hmod : c.number % U64 = c.number := Nat.mod_eq_of_lt (by simp only [U64]; omega)
     omega
 
+/-- **Import batches extend valid chains.** If the chain-level verifier (the pure verifier folded along a batch
+from its parent, which is what `(*BlockChain).VerifyYouVersionState{,2}` must compute — checked against the
+real entry points by the harness) accepts a consecutively numbered batch on top of the head of a valid chain,
+the extended chain is valid — so every chain-level theorem above applies to what header/block import accepts. -/
+theorem accepted_batch_extends_chain {V : Versions} : ∀ (batch : List Hdr) {p : Hdr} {rest : List Hdr} (i : Nat),
+    ValidChain V (p :: rest) → Numbered p batch → verifyBatch V p batch i = none →
+    ValidChain V (batch.reverse ++ p :: rest) := by
+  intro batch
+  induction batch with
+  | nil => intro p rest i hc _ _; simpa using hc
+  | cons c cs ih =>
+    intro p rest i hc hn hv
+    simp only [verifyBatch] at hv
+    split at hv
+    · rename_i hok
+      obtain ⟨h1, h2, h3⟩ := hn
+      have hc' : ValidChain V (c :: p :: rest) := ValidChain.step c p rest hc ⟨h1, h2, hok⟩
+      have := ih (i + 1) hc' h3 hv
+      simpa [List.reverse_cons, List.append_assoc] using this
+    · cases hv
+
+/-- A rejected batch is rejected at its first bad link: the reported index is that of a header the pure
+verifier rejects against its predecessor, and everything before it was accepted. -/
+theorem rejected_batch_index {V : Versions} : ∀ (batch : List Hdr) (p : Hdr) (i k : Nat),
+    verifyBatch V p batch i = some k →
+    i ≤ k ∧ ∃ q c, (p :: batch)[k - i]? = some q ∧ batch[k - i]? = some c ∧ (Gen.verify V q c).1 ≠ .ok := by
+  intro batch
+  induction batch with
+  | nil => intro p i k h; simp [verifyBatch] at h
+  | cons c cs ih =>
+    intro p i k h
+    simp only [verifyBatch] at h
+    split at h
+    · obtain ⟨h1, q, c', h2, h3, h4⟩ := ih c (i + 1) k h
+      refine ⟨by omega, q, c', ?_, ?_, h4⟩
+      · have hk : k - i = (k - (i + 1)) + 1 := by omega
+        rw [hk, List.getElem?_cons_succ]; exact h2
+      · have hk : k - i = (k - (i + 1)) + 1 := by omega
+        rw [hk, List.getElem?_cons_succ]; exact h3
+    · rename_i hbad
+      cases h
+      exact ⟨Nat.le_refl _, p, c, by simp, by simp, hbad⟩
+
 /-- The hypotheses on the parameter table hold for every table the node ships (mainnet, testnet,
 test-case network), decided over the constants regenerated from `params.Versions`. -/
 theorem shipped_tables_ok : ∀ t ∈ Gen.shippedTables, ∀ e ∈ t, e.2.ok = true := by decide
